@@ -24,6 +24,8 @@ http_flow(), ws_flow(), tcp_flow(), udp_flow(), dns_flow()                 per-t
 Pool(seed)                                    pre-sampled sub-descriptor pools (pass as pool=) for cheap generation
 edits(kind)                                   strategy of edit operations valid for a flow of that kind
 apply_edit(flow, op)                          apply one edit operation to a real flow (public attribute API only)
+type_errors(flow) -> [str]                    attributes whose value does not have the declared type ([] == valid)
+kind_of(desc), populated(desc)                classification helpers for evidence histograms
 CERTS                                         three PEM certificates (CA, 2 leaves) used for certificate fields
 
 Descriptor format (all keys optional except "type"; defaults in brackets)
@@ -364,7 +366,8 @@ def apply_edit(f, op):
     """Apply one edit operation through the public attribute API (STABLE).  Ops that do not apply to the flow at
     hand (e.g. a response edit while response is None) are no-ops, so every generated op is applicable.
 
-    common: ["comment", s] ["marked", s] ["meta", key, value] ["meta_del", key] ["error", None|[msg, ts]]
+    common: ["comment", s] ["marked", s] ["meta", key, value] ["meta_del", key] ["meta_inplace", key, value] (mutates the
+              list/dict stored under key in place) ["error", None|[msg, ts]]
             ["intercepted", b] ["is_replay", v] ["ts", x] ["client", attr, value] ["server", attr, value]
               (attr in sni, alpn, error, tls, cipher, timestamp_end, tls_version)
     http:   ["req", attr, value] / ["resp", attr, value]  attr in method, path, host, port, scheme, authority,
@@ -389,6 +392,14 @@ def apply_edit(f, op):
         f.metadata[op[1]] = copy.deepcopy(op[2])
     elif k == "meta_del":
         f.metadata.pop(op[1], None)
+    elif k == "meta_inplace":
+        cur = f.metadata.get(op[1])
+        if isinstance(cur, list):
+            cur.append(copy.deepcopy(op[2]))
+        elif isinstance(cur, dict):
+            cur["sub"] = copy.deepcopy(op[2])
+        else:
+            f.metadata[op[1]] = [copy.deepcopy(op[2])]
     elif k == "error":
         f.error = build_error(op[1])
     elif k == "intercepted":
@@ -658,6 +669,7 @@ def edits(kind, small=True):
         st.tuples(st.just("comment"), text), st.tuples(st.just("marked"), text),
         st.tuples(st.just("meta"), st.sampled_from(["k", "j", "websocket"]), meta_value),
         st.tuples(st.just("meta_del"), st.sampled_from(["k", "j", "websocket"])),
+        st.tuples(st.just("meta_inplace"), st.sampled_from(["k", "j"]), st.one_of(st.integers(0, 3), small_binary)),
         st.tuples(st.just("error"), error), st.tuples(st.just("intercepted"), st.booleans()),
         st.tuples(st.just("is_replay"), st.sampled_from([None, "request", "response"])),
         st.tuples(st.just("ts"), ts),
@@ -799,3 +811,158 @@ def populated(desc):
     if d.get("messages"):
         out.append("messages")
     return sorted(set(out))
+
+
+# ------------------------------------------------------------------------------------------------ validity
+def _is(v, *kinds):
+    for k in kinds:
+        if k is None:
+            if v is None:
+                return True
+        elif k is float:
+            if isinstance(v, (int, float)) and not isinstance(v, bool):
+                return True
+        elif k is int:
+            if isinstance(v, int) and not isinstance(v, bool):
+                return True
+        elif isinstance(v, k):
+            return True
+    return False
+
+
+def type_errors(f):
+    """List of "path: problem" strings for every observed attribute of flow `f` whose value does not have the type
+    the flow classes declare (STABLE).  An int is accepted where a float is declared.  [] == valid."""
+    o = observe(f, backup=False)
+    errs = []
+
+    def chk(path, v, *kinds):
+        if not _is(v, *kinds):
+            errs.append("%s: %s %r" % (path, type(v).__name__, v if not isinstance(v, (bytes, str)) else v[:20]))
+            return False
+        return True
+
+    def addr(path, a, optional):
+        if a is None:
+            if not optional:
+                errs.append(path + ": None")
+            return
+        if not isinstance(a, list) or len(a) not in (2, 4) or not isinstance(a[0], str) or not all(_is(x, int) for x in a[1:]):
+            errs.append("%s: bad address %r" % (path, a))
+
+    def hdrs(path, h):
+        if not isinstance(h, list) or not all(isinstance(x, list) and len(x) == 2 and isinstance(x[0], bytes) and isinstance(x[1], bytes) for x in h):
+            errs.append("%s: bad header list" % path)
+
+    def conn(path, c, client):
+        addr(path + ".peername", c["peername"], not client)
+        addr(path + ".sockname", c["sockname"], not client)
+        chk(path + ".id", c["id"], str)
+        if c["transport"] not in ("tcp", "udp"):
+            errs.append("%s.transport: %r" % (path, c["transport"]))
+        chk(path + ".error", c["error"], None, str)
+        chk(path + ".tls", c["tls"], bool)
+        for i, x in enumerate(c["certs"]):
+            chk("%s.certs[%d]" % (path, i), x, bytes)
+        chk(path + ".alpn", c["alpn"], None, bytes)
+        for i, x in enumerate(c["alpn_offers"]):
+            chk("%s.alpn_offers[%d]" % (path, i), x, bytes)
+        chk(path + ".cipher", c["cipher"], None, str)
+        for i, x in enumerate(c["cipher_list"]):
+            chk("%s.cipher_list[%d]" % (path, i), x, str)
+        if c["tls_version"] is not None and c["tls_version"] not in TLS_VERSIONS:
+            errs.append("%s.tls_version: %r" % (path, c["tls_version"]))
+        chk(path + ".sni", c["sni"], None, str)
+        for k in ("ts_end", "ts_tls"):
+            chk(path + "." + k, c[k], None, float)
+        if client:
+            chk(path + ".ts_start", c["ts_start"], float)
+            chk(path + ".proxy_mode", c["proxy_mode"], str)
+            chk(path + ".mitmcert", c["mitmcert"], None, bytes)
+        else:
+            chk(path + ".ts_start", c["ts_start"], None, float)
+            chk(path + ".ts_tcp", c["ts_tcp"], None, float)
+            addr(path + ".address", c["address"], True)
+            if c["address"] is not None and len(c["address"]) != 2:
+                errs.append(path + ".address: not a 2-tuple")
+            v = c["via"]
+            if v is not None and not (isinstance(v, list) and len(v) == 2 and v[0] in VIA_SCHEMES and isinstance(v[1], list)
+                                      and len(v[1]) == 2 and isinstance(v[1][0], str) and _is(v[1][1], int)):
+                errs.append("%s.via: %r" % (path, v))
+
+    def msg(path, m):
+        chk(path + ".http_version", m["http_version"], bytes)
+        hdrs(path + ".headers", m["headers"])
+        chk(path + ".content", m["content"], None, bytes)
+        if m["trailers"] is not None:
+            hdrs(path + ".trailers", m["trailers"])
+        chk(path + ".ts_start", m["ts_start"], float)
+        chk(path + ".ts_end", m["ts_end"], None, float)
+
+    chk("id", o["id"], str)
+    chk("intercepted", o["intercepted"], bool)
+    if o["is_replay"] not in (None, "request", "response"):
+        errs.append("is_replay: %r" % (o["is_replay"],))
+    chk("marked", o["marked"], str)
+    chk("comment", o["comment"], str)
+    chk("metadata", o["metadata"], dict)
+    chk("ts", o["ts"], float)
+    if o["error"] is not None:
+        chk("error.msg", o["error"][0], str)
+        chk("error.timestamp", o["error"][1], float)
+    conn("client", o["client"], True)
+    conn("server", o["server"], False)
+    t = o["type"]
+    if t == "http":
+        q = o["request"]
+        msg("request", q)
+        chk("request.host", q["host"], str)
+        chk("request.port", q["port"], int)
+        for k in ("method", "scheme", "authority", "path"):
+            chk("request." + k, q[k], bytes)
+        p = o["response"]
+        if p is not None:
+            msg("response", p)
+            chk("response.status_code", p["status_code"], int)
+            chk("response.reason", p["reason"], bytes)
+        w = o["websocket"]
+        if w is not None:
+            for i, m in enumerate(w["messages"]):
+                pth = "websocket.messages[%d]" % i
+                if m[0] not in (1, 2):
+                    errs.append(pth + ".type: %r" % (m[0],))
+                chk(pth + ".from_client", m[1], bool)
+                chk(pth + ".content", m[2], bytes)
+                chk(pth + ".timestamp", m[3], float)
+                chk(pth + ".dropped", m[4], bool)
+                chk(pth + ".injected", m[5], bool)
+            chk("websocket.closed_by_client", w["closed_by_client"], None, bool)
+            chk("websocket.close_code", w["close_code"], None, int)
+            chk("websocket.close_reason", w["close_reason"], None, str)
+            chk("websocket.ts_end", w["ts_end"], None, float)
+    elif t in ("tcp", "udp"):
+        for i, m in enumerate(o["messages"]):
+            pth = "messages[%d]" % i
+            chk(pth + ".from_client", m[0], bool)
+            chk(pth + ".content", m[1], bytes)
+            chk(pth + ".timestamp", m[2], float)
+    elif t == "dns":
+        for which in ("request", "response"):
+            m = o[which]
+            if m is None:
+                if which == "request":
+                    errs.append("request: None")
+                continue
+            for k in ("id", "op_code", "reserved", "rcode"):
+                chk("%s.%s" % (which, k), m[k], int)
+            for k in ("query", "aa", "tc", "rd", "ra"):
+                chk("%s.%s" % (which, k), m[k], bool)
+            chk(which + ".ts", m["ts"], None, float)
+            for i, qd in enumerate(m["questions"]):
+                if not (isinstance(qd[0], str) and _is(qd[1], int) and _is(qd[2], int)):
+                    errs.append("%s.questions[%d]: %r" % (which, i, qd))
+            for sec in ("answers", "authorities", "additionals"):
+                for i, r in enumerate(m[sec]):
+                    if not (isinstance(r[0], str) and _is(r[1], int) and _is(r[2], int) and _is(r[3], int) and isinstance(r[4], bytes)):
+                        errs.append("%s.%s[%d]: %r" % (which, sec, i, r))
+    return errs
